@@ -1,9 +1,9 @@
 SPECIFICATION Spec
 CONSTANTS ResetOnError = TRUE
  ZeroTimerGuarded = TRUE
- KindSet = "all"
- NN = 2
- Mode = "labels"
+ KindSet = "classic"
+ NN = 3
+ Mode = "plain"
 INVARIANT Released
 INVARIANT Depth1
 INVARIANT RecursionIsFatal
